@@ -465,4 +465,14 @@ def do_replay(pid, path):
 
 
 if __name__ == "__main__":
-    sys.exit(main())
+    try:
+        rc = main()
+    except SystemExit:
+        raise
+    except BaseException as e:  # a crash of the checker is never a verdict about the property
+        import traceback
+
+        traceback.print_exc()
+        print(f"CHECKER-ERROR {type(e).__name__}: {e}")
+        rc = 3
+    sys.exit(rc)
